@@ -10,8 +10,16 @@ PROP = {
         {"name": "rocks-rawid", "crate": "store", "bin": "sv-c13", "machine": "c13r", "features": [],
          "modes": ["model"], "gen_args": ["rawid"],
          "cases": {"quick": 480, "thorough": 16000}, "min_shard": 30, "timeout": 1500},
+        # SIGKILL exploration: support only (RocksDB's WAL durability is trusted, not proved); thorough tier only
+        {"name": "rocks-crash", "crate": "store", "bin": "sv-c13", "machine": "c13r", "features": [],
+         "gen_args": ["crash"], "shrink": False,
+         "cases": {"quick": 0, "thorough": 1600}, "min_shard": 100, "timeout": 1500},
+        # SIGKILL exploration: support only (RocksDB's WAL durability is trusted, not proved); thorough tier only
+        {"name": "rocks-crash", "crate": "store", "bin": "sv-c13", "machine": "c13r", "features": [],
+         "gen_args": ["crash"], "shrink": False,
+         "cases": {"quick": 0, "thorough": 1600}, "min_shard": 100, "timeout": 1500},
         {"name": "inmem-random", "crate": "store", "bin": "sv-c13m", "machine": "c13m", "features": [],
-         "cases": {"quick": 16000, "thorough": 800000}, "min_shard": 1000, "timeout": 1500},
+         "cases": {"quick": 16000, "thorough": 320000}, "min_shard": 1000, "timeout": 1500},
     ],
     "level_text": "Proof (Lean 4, all inputs / all op sequences): the on-disk key layout is injective in "
                   "(keyspace tag, lane id, key) including empty keys, 0x00/0xFF and shared prefixes; a key lies in "
